@@ -15,6 +15,7 @@
 import PydapModel.Proxy
 import PydapModel.CacheKey
 import Proofs.Proxy
+import Proofs.ProxySess
 import Proofs.CacheKey
 import PydapModel.Cache
 import Proofs.Cache
@@ -188,23 +189,42 @@ theorem C18_cache_transparent_customKey {ρ : Type} (orig : List Char → List C
     (fun r1 r2 _ _ hk => C18_cache_key orig horig shared base r1 r2 hk)
     (fun r1 r2 h1 h2 hs => hshared r1 h1 r2 h2 hs) (fun r1 r2 h1 h2 e => hfun r1 h1 r2 h2 e) [] (C18_cache_inv_empty _ _ _) urls (fun _ h => h)).1
 
-/-- **The two halves together, for a read history of an opened dataset (round 7)**: every history of derivations,
-    copies, reads, array / DAP4 reads, grid reads and server-function calls from a dataset opened with session `σ`
-    sends every one of its GETs through `σ`, and — when `σ` is a caching session whose key function tells the requests of
-    that history apart (the unpatched `create_key`) — the answers it obtains, request by request from the empty store,
-    are those a plain session obtains.  `server` is any function of the request.  NOTE (what this does not say): the
-    history is open-loop — in the heap model the requests are determined by the events, not by earlier answers — and
-    that the requests themselves do not depend on the session kind is not a theorem (it is what the traced histories of
-    the correspondence compare on the three session kinds). -/
-theorem C18_history_session_and_cache {κ ρ : Type} [DecidableEq κ] (b : Name) (bs : List Name) (σ : Nat) (n : Name)
+/-- **The requests of a history do not depend on the session (round 7)**: two datasets opened from the same URL with
+    sessions `σ` and `τ` (plain, caching, caching with consolidated keys, none) and taken through the same history of
+    derivations, copies and reads issue the same requests in the same order, and hold the same objects up to the
+    session they carry.  Proof: every event commutes with relabelling the sessions (`Proofs/ProxySess.lean`, `re_step`;
+    it fails for the pre-13350a5 `__copy__`, which wrote `None`). -/
+theorem C18_requests_any_session (σ τ : Sess) (b : Name) (bs : List Name) (n : Name) (keys : List Name)
+    (arrays : List (Name × List Nat × Bool)) (evs : List Ev) :
+    (run (openHeap b bs τ n keys arrays) evs).log.map (·.2) = (run (openHeap b bs σ n keys arrays) evs).log.map (·.2) ∧
+    (run (openHeap b bs τ n keys arrays) evs).objs = (run (openHeap b bs σ n keys arrays) evs).objs.map (reObj τ) :=
+  ⟨(run_requests_any_session σ τ b bs n keys arrays evs).1, (run_requests_any_session σ τ b bs n keys arrays evs).2.1⟩
+
+/-- **The clauses together, for a read history of an opened dataset (round 7)**: take any history of derivations,
+    copies, reads, array / DAP4 reads, grid reads and server-function calls; run it on a dataset opened with a caching
+    session `c` and on one opened with a plain session `p`.  Then (1) every GET of the first goes through `c` and every
+    GET of the second through `p` — never an anonymous session —, (2) both issue the same requests, and (3) when the
+    key function of `c` tells the requests of the history apart (the unpatched `create_key`), the answers obtained
+    through the cache, request by request from the empty store, are the answers the plain session obtains.  `server` is
+    any function of the request.  What this does not say: the history is open-loop (in the heap model the requests are
+    determined by the events, not by earlier answers); consolidated keys need `hshared` (`C18_cache_transparent_customKey`
+    on `CK.Req`; the heap model's `Req` is the parsed request, the key model's the URL parts — the two are related only
+    by the harness). -/
+theorem C18_history_session_and_cache {κ ρ : Type} [DecidableEq κ] (b : Name) (bs : List Name) (c p : Nat) (n : Name)
     (keys : List Name) (arrays : List (Name × List Nat × Bool)) (evs : List Ev)
     (key : Proxy.Req → κ) (server : Proxy.Req → ρ)
-    (hinj : ∀ q1 ∈ (run (openHeap b bs (some σ) n keys arrays) evs).log.map (·.2),
-            ∀ q2 ∈ (run (openHeap b bs (some σ) n keys arrays) evs).log.map (·.2), key q1 = key q2 → q1 = q2) :
-    (∀ e ∈ (run (openHeap b bs (some σ) n keys arrays) evs).log, e.1 = some σ) ∧
-    (runCached key server [] ((run (openHeap b bs (some σ) n keys arrays) evs).log.map (·.2))).1
-      = runPlain server ((run (openHeap b bs (some σ) n keys arrays) evs).log.map (·.2)) :=
-  ⟨C18_session_from_open b bs σ n keys arrays evs, C18_cache_transparent_url key server _ hinj⟩
+    (hinj : ∀ q1 ∈ (run (openHeap b bs (some c) n keys arrays) evs).log.map (·.2),
+            ∀ q2 ∈ (run (openHeap b bs (some c) n keys arrays) evs).log.map (·.2), key q1 = key q2 → q1 = q2) :
+    (∀ e ∈ (run (openHeap b bs (some c) n keys arrays) evs).log, e.1 = some c) ∧
+    (∀ e ∈ (run (openHeap b bs (some p) n keys arrays) evs).log, e.1 = some p) ∧
+    (run (openHeap b bs (some c) n keys arrays) evs).log.map (·.2)
+      = (run (openHeap b bs (some p) n keys arrays) evs).log.map (·.2) ∧
+    (runCached key server [] ((run (openHeap b bs (some c) n keys arrays) evs).log.map (·.2))).1
+      = runPlain server ((run (openHeap b bs (some p) n keys arrays) evs).log.map (·.2)) := by
+  have hreq := (C18_requests_any_session (some p) (some c) b bs n keys arrays evs).1
+  refine ⟨C18_session_from_open b bs c n keys arrays evs, C18_session_from_open b bs p n keys arrays evs, hreq, ?_⟩
+  rw [← hreq]
+  exact C18_cache_transparent_url key server _ hinj
 
 /-- Assumption (b) is necessary: two files under the base whose answers to the same shared-dimension
     constraint differ (the server echoes the URL) — the second read through the consolidated cache returns the
@@ -448,8 +468,14 @@ example : exInside.host ≠ earthdataHost ∧ exInside.url ≠ (exReq "data.exam
 /-- `C18_history_session_and_cache` on a history with a repeated read (a hit): hypotheses hold with the identity key -/
 example : (runCached (fun q : Proxy.Req => q) (fun q => q.ids)
       [] ((run (openHeap ['u'] [] (some 3) ['s'] [['i']] [(['a'], [2], true)]) [.aget 1 [Idx.int 0], .iter 0, .aget 1 [Idx.int 0]]).log.map (·.2))).1
-    = runPlain (fun q => q.ids) ((run (openHeap ['u'] [] (some 3) ['s'] [['i']] [(['a'], [2], true)]) [.aget 1 [Idx.int 0], .iter 0, .aget 1 [Idx.int 0]]).log.map (·.2)) :=
-  (C18_history_session_and_cache ['u'] [] 3 ['s'] [['i']] [(['a'], [2], true)] _ _ _ (fun _ _ _ _ h => h)).2
+    = runPlain (fun q => q.ids) ((run (openHeap ['u'] [] (some 4) ['s'] [['i']] [(['a'], [2], true)]) [.aget 1 [Idx.int 0], .iter 0, .aget 1 [Idx.int 0]]).log.map (·.2)) :=
+  (C18_history_session_and_cache ['u'] [] 3 4 ['s'] [['i']] [(['a'], [2], true)] _ _ _ (fun _ _ _ _ h => h)).2.2.2
+/-- the relabelling is not the identity: the objects of the two runs differ in the session, the requests do not; and the
+    old `__copy__` does not commute with it (a filtered sequence was read through no session whatever the dataset's) -/
+example : (run (openHeap ['u'] [] (some 3) ['s'] [['i']] []) [.getitem 0 (.ce [['c']]), .iter 2]).log
+      ≠ (run (openHeap ['u'] [] (some 4) ['s'] [['i']] []) [.getitem 0 (.ce [['c']]), .iter 2]).log ∧
+    (runOld (openHeap ['u'] [] (some 3) ['s'] [['i']] []) [.getitem 0 (.ce [['c']]), .iter 2]).log
+      = (runOld (openHeap ['u'] [] (some 4) ['s'] [['i']] []) [.getitem 0 (.ce [['c']]), .iter 2]).log := by decide
 
 /-- a history with consolidated hits (second read: another file under the base; fourth: a repeat) and a
     sibling directory that is not shared; the server answers the shared constraint identically under the base -/
